@@ -74,6 +74,15 @@ def gen(rng, tier):
                 msg = fill * 93
                 for cut in (list(range(0, 94)) if tier == "thorough" or rk == 1 else [0, 16, 32, 33, 47, 48, 49, 63, 64, 80, 93]):
                     cs.append(Case("%s %s %s %s" % (op, hx(key), hx(msg[:cut]), hx(msg[cut:])), cls="%s/degenerate-key" % op))
+    # the default-parameter object forms with a key held in a variable-length container (Vec<u8> of 16..64 bytes): one-shot,
+    # incremental and classic must all hand the WHOLE key to BLAKE2b
+    for klen in range(16, 65):
+        if klen == 32:
+            continue
+        for n in (0, 1, 64, 127, 128, 129, 300):
+            msg = rbytes(rng, n)
+            for i in sorted({0, n // 2, n}):
+                cs.append(Case(line(rng, "generichash_obj", klen, "32 ", [msg[:i], msg[i:]]), cls="generichash_obj/vec-key"))
     if signfam:
         cs += signfam.c08_cases(rng, tier)
     return cs
